@@ -385,6 +385,12 @@ func (x *Exec) rangeStream(n *ast.RangeStmt, rv *Val, st *St, fr *Frame, k func(
 	// (the invariants describe the state at the end of an iteration, before the producer is resumed)
 	hv := st.clone()
 	x.loopHavoc(hv, fr, []ast.Node{n.Body}, key)
+	// what the stream records changes at every arrival: at an arbitrary later resume only the loop invariants speak about it
+	x.wrapCfail("records of stream "+name, func() {
+		for _, g := range x.recordVars(sc) {
+			hv.heap[g.Key] = x.fresh(g.Key, g.Sort)
+		}
+	})
 	x.assumeInvariants(hv, fr, c, key, nil)
 	x.assumeWF(hv)
 	resume(hv)
